@@ -1,0 +1,14 @@
+// Copyright 2018-present the CoreDHCP Authors. All rights reserved
+// This source code is licensed under the MIT license found in the
+// LICENSE file in the root directory of this source tree.
+
+//go:build verif
+
+package ipv6only
+
+// VerifReset restores the package-level configuration to its start-of-process
+// state (verification hook, build tag `verif`): a server process runs each
+// setup function once, a property-based test runs it thousands of times.
+func VerifReset() {
+	v6only_wait = 0
+}
